@@ -33,7 +33,8 @@ THEOREMS = ["QExPy.C04_key_unordered",
             "QExPy.C04_reject_cov_out_of_range",
             "QExPy.C04_reject_non_measurement",
             "QExPy.C04_reject_no_number",
-            "QExPy.C04_inferred_never_rejected"]
+            "QExPy.C04_inferred_never_rejected",
+            "QExPy.C04_inferred_is_sample_cov"]
 RULE = ("seeded histories (5-60 requests) over 2-6 operands of all kinds (single measurements incl. "
         "zero uncertainty, plain reading arrays incl. equal length / collinear / zero spread, "
         "reading arrays with individual uncertainties, derived values, constants, plain numbers and "
